@@ -283,6 +283,19 @@ def exhaustive_cases():
                        "values": [0.25, 0.625]}
 
 
+def activation_cases():
+    """every activation method x every subset of {conjunction, disjunction} removed x the rule sets that use a connective:
+    the operators the rules are evaluated with are the block's own, whatever the activation method"""
+    for act in ACTIVATIONS:
+        for conj, disj in itertools.product([1, 0], repeat=2):
+            for rs in (["and"], ["or"], ["andor"], ["orand"], ["and", "or"], ["plain", "or"]):
+                yield {"inputs": 2,
+                       "outputs": [{"name": "o1", "defuzzifier": "Centroid", "aggregation": True, "shape": "tri"}],
+                       "blocks": [{"name": "rb", "conjunction": bool(conj), "disjunction": bool(disj), "implication": True,
+                                   "activation": act, "rules": mk_rules(rs)}],
+                       "values": [0.25, 0.625]}
+
+
 def random_case(rng, general=True):
     nout = rng.choice([1, 2, 2])
     outs = []
@@ -322,6 +335,7 @@ def correspond(ctx):
     mism = []
     cases = [(c, "corpus") for c in corpus_cases()]
     cases += [(c, "exhaustive-1x1") for c in exhaustive_cases()]
+    cases += [(c, "activation-methods") for c in activation_cases()]
     cases += [(random_case(ctx.rng, True), "random-general") for _ in range(ctx.scale(1500, 60000))]
     cases += [(random_case(ctx.rng, False), "random-any-activation") for _ in range(ctx.scale(500, 20000))]
     ctx.notes["exhaustive"] = True
@@ -370,7 +384,7 @@ def correspond(ctx):
 
 
 def search(ctx):
-    for case in itertools.chain(corpus_cases(), exhaustive_cases()):
+    for case in itertools.chain(corpus_cases(), exhaustive_cases(), activation_cases()):
         ok, d = oracle(case)
         if not ok:
             return [(case, d)]
